@@ -24,6 +24,9 @@ def render(spec, prologue="", epilogue="", union=None, actions=None, tags=None):
         num = spec.get("nums", {}).get(t)
         tg = "<%s> " % tags[t] if t in tags else ""
         out.append("%%token %s%s%s\n" % (tg, t, (" %d" % num) if num else ""))
+    for lit in spec["lits"]:
+        if lit in tags:
+            out.append("%%token <%s> %s\n" % (tags[lit], lit))
     for nt in spec["nts"]:
         if nt in tags:
             out.append("%%type <%s> %s\n" % (tags[nt], nt))
@@ -65,7 +68,7 @@ def rand_grammar(rng, max_t=5, max_n=5, max_alt=3, max_len=4, p_prec=0.5, p_lit=
         nN = rng.randint(6, 14)
     tokens = []
     lits = []
-    litchars = "+-*/()=<>!&^~,.#@"
+    litchars = "+-*/()=<>!&^~,.#@%\""
     for i in range(nT):
         if rng.random() < p_lit and len(lits) < len(litchars):
             c = litchars[len(lits)]
